@@ -22,6 +22,7 @@ type c18op struct {
 	i    int
 	key  []string
 	data *gen.DNode
+	sel  *node.Selection // DR: a selection obtained before the preceding operation ran (a handle the caller kept)
 }
 
 func (o c18op) tokens(kids []*gen.SNode) string {
@@ -168,11 +169,19 @@ func C18(c *core.Ctx) {
 			nops := 1 + r.Intn(12)
 			var ops []c18op
 			var hist []string
+			keptEver := false     // a delete through a selection obtained before the preceding delete, on a reflection backend (known finding)
 			compoundEver := false // once a compound-key list was held in a Go map the known defect may have struck: later steps of the history inherit it
 			cur := gen.Clone(loc.body) // harness-side view, refreshed from the store after each op
+			var pending *c18op
 			for k := 0; k < nops; k++ {
 				// choose an op that makes sense for the current content
 				var op c18op
+				if pending != nil {
+					op = *pending
+					pending = nil
+					goto chosen
+				}
+				{
 				var structural []int
 				for i, s := range loc.kids {
 					if s.Kind != "leaf" {
@@ -252,6 +261,20 @@ func C18(c *core.Ctx) {
 					}
 					op = c18op{kind: "R", i: i, data: d}
 				}
+				}
+			chosen:
+				if op.kind == "DR" && op.sel == nil && len(cur[op.i].Rows) >= 2 && r.Chance(35) {
+					// the caller holds selections of two entries and deletes one after the other
+					for _, row := range cur[op.i].Rows {
+						if strings.Join(row.Key, "\x00") != strings.Join(op.key, "\x00") {
+							if s2, err := selAt(keyPath(loc.kids[op.i].Name, row.Key)); err == nil && s2 != nil {
+								pending = &c18op{kind: "DR", i: op.i, key: row.Key, sel: s2}
+								c.Count("op", "DR-with-kept-selection")
+							}
+							break
+						}
+					}
+				}
 				ops = append(ops, op)
 				hist = append(hist, op.describe(loc.kids))
 				// run it on the real code
@@ -274,6 +297,9 @@ func C18(c *core.Ctx) {
 					}
 				case "DR":
 					sel, err := selAt(keyPath(loc.kids[op.i].Name, op.key))
+					if op.sel != nil {
+						sel, err = op.sel, nil
+					}
 					if err != nil {
 						opErr = err
 					} else if sel != nil {
@@ -323,6 +349,7 @@ func C18(c *core.Ctx) {
 				}
 				compoundEver = compoundEver || gen.CompoundInMap > 0
 				compoundMap := compoundEver
+				keptEver = keptEver || (op.sel != nil && tgtKind != "refstore")
 				locAfter := locateBody(dc.kids, after, loc)
 				status := errClass(opErr)
 				canon := "<entry point vanished>"
@@ -362,7 +389,7 @@ func C18(c *core.Ctx) {
 				lines = append(lines, "data ops ; "+strings.Join(gen.SchemaTokens(loc.kids), " ")+" ; "+
 					strings.Join(gen.BodyTokens(loc.kids, initLocBody), " ")+" ; "+strings.Join(optoks, " ; "))
 				input := map[string]interface{}{"yang": dc.yang, "target_impl": tgtKind, "location": loc.path,
-					"initial": gen.Canon(loc.kids, initLocBody, false), "history": append([]string{}, hist...), "error": fmt.Sprint(opErr), "after": canon, "lookups": lookups, "compound_list_in_go_map": compoundMap}
+					"initial": gen.Canon(loc.kids, initLocBody, false), "history": append([]string{}, hist...), "error": fmt.Sprint(opErr), "after": canon, "lookups": lookups, "compound_list_in_go_map": compoundMap, "kept_selection_on_slice_list": keptEver}
 				pends = append(pends, pend{fmt.Sprintf("%s at %q step %d: %s", tgtKind, loc.path, k+1, hist[len(hist)-1]), status + " " + canon + " " + lookups, loc, unord, input, tgtKind, hist})
 				if op.kind != "U" && op.kind != "I" && op.kind != "P" {
 					c.Distinct(fmt.Sprint(si, ci, k))
@@ -410,6 +437,9 @@ func C18(c *core.Ctx) {
 			continue
 		}
 		if p.impl != want {
+			if p.input["kept_selection_on_slice_list"] == true && c.IsKnown("kept-selection-slice-list", p.desc) {
+				continue
+			}
 			if p.target != "refstore" && p.input["compound_list_in_go_map"] == true && c.IsKnown("map-list-compound-key", p.desc) {
 				continue
 			}
